@@ -60,6 +60,7 @@ class Obs:
         self.reuse_probes: list[dict[str, Any]] = []
         self.lost_not_closed: list[str] = []
         self.lost_events: list[dict[str, Any]] = []   # end-of-instant facts about every transport whose connection_lost was delivered
+        self.stall: dict[str, Any] = {}
         self.session_tag: dict[int, str] = {}   # connection idx -> tag of the stop callback the application passed when it opened that session
 
     def signature(self) -> str:
@@ -315,6 +316,24 @@ class Runner:
             elif kind == "await_all":
                 for c in spawned:
                     await c.task
+            elif kind == "stall_fill":
+                # the device stops reading; the application queues data until the transport's write buffer sits op[1] bytes below its high-water
+                # mark (so that the NEXT write - the next program step's request, or the keepalive ping - is the one that crosses it)
+                from vf.sim import stall  # noqa: PLC0415
+
+                dconn = self.dev.conns[-1]
+                dconn.sock.send_fault = "block"
+                try:
+                    tr = stall.transport_of(sim, dconn)
+                    high = tr.get_write_buffer_limits()[1]
+                    reached = stall.fill_write_buffer(cli, tr, high - int(op[1]))
+                    sim.log("stall_fill", reached, high)
+                    self.obs.stall = {"buffered": reached, "high_water": high}
+                except Exception as e:  # noqa: BLE001   (a library that refuses to queue is within its rights; the scenario just goes on)
+                    sim.log("stall_fill_refused", type(e).__name__)
+                    self.obs.stall = {"refused": repr(e)}
+            elif kind == "stall_release":
+                self.dev.conns[-1].sock.send_fault = ("rate", int(op[1])) if len(op) > 1 and op[1] else None
             else:
                 raise ValueError(kind)
         for c in spawned:
